@@ -19,7 +19,6 @@ import (
 	"math/big"
 	"os"
 	"path/filepath"
-	"runtime/pprof"
 	"sort"
 	"strings"
 	"sync"
@@ -945,8 +944,10 @@ func (w *world) quiescent(g *act.Gate) (stop bool) {
 // P = the tip the node has just polled (= chain.Visible: at a quiescent point the downloader has seen
 // this tip at least twice). Present = GERs inserted in canonical blocks 1..P and not removed in a later
 // block ≤ P. For every X in 0..maxIndex+1:
-//   soundness    — an answer (root, idx) has idx ≥ X, is a leaf of the L1 info tree, and root ∈ Present;
-//   completeness — if some root of Present has index ≥ X, there is an answer (any qualifying root).
+//
+//	soundness    — an answer (root, idx) has idx ≥ X, is a leaf of the L1 info tree, and root ∈ Present;
+//	completeness — if some root of Present has index ≥ X, there is an answer (any qualifying root).
+//
 // GetLastProcessedBlock ≤ P.
 func (w *world) oracle() {
 	m := strings.ToLower(w.p.Mode)
@@ -1005,6 +1006,12 @@ func (w *world) sound(m string, X int, got lastgersync.GlobalExitRootInfo, P uin
 		return
 	}
 	if _, ok := pres[idx]; ok {
+		for i := range pres {
+			if i >= X && i < idx { // allowed by the property as stated; counted to show what the reading costs
+				w.c.Witness("answers_that_are_not_the_smallest_qualifying_index")
+				break
+			}
+		}
 		return
 	}
 	// not present: find out why
@@ -1078,11 +1085,6 @@ func (w *world) fail(key, format string, a ...any) {
 // ---------------------------------------------------------------------------------------------
 
 func main() {
-	if f := os.Getenv("C16_PROF"); f != "" {
-		fh, _ := os.Create(f)
-		pprof.StartCPUProfile(fh)
-		defer pprof.StopCPUProfile()
-	}
 	if t := os.Getenv("C16_LIST"); t != "" { // development aid: list the units of a tier
 		for i, u := range units(t) {
 			fmt.Println(i, u.Name)
